@@ -2,7 +2,13 @@
 
 Correspondence: eval results (error kind included), held values, trace graph and stack
 emptiness against the Lean mechanism model after every op.
-Oracle (implementation only, own replay): after every failing top-level call – the error is
+The recursion limit is an observable (`mx.get_recursion()` against the model's `Env.maxdepth` after every op);
+histories change it (`maxdepth n`) and interleave administrative calls (`admin …`, see execworld) that the model
+treats as the identity.
+Oracle (implementation only, own replay): the limit in force is the one configured last (the harness' own
+record of the history); formulas never nest deeper than limit + 1, and a DeepReferenceError arises exactly at
+that depth; every evaluation returns what it returns in a run of the same history WITHOUT the administrative
+calls.  After every failing top-level call – the error is
 a FormulaError carrying the original exception; call stack, index stack and reference stack
 are empty and nothing is marked executing; no element of the chain that was executing (taken
 from the Python traceback of the original exception, not from modelx's bookkeeping) holds a
@@ -19,14 +25,18 @@ from ..shadow import real_chain
 from modelx.core.errors import FormulaError
 
 CFG = {
-    "weights": {"eval": 9, "reeval": 2, "set": 0.5, "clearat": 0.6, "clear": 0.3, "clearall": 0.1},
-    "compare": ["values", "graph", "quiescent"],
-    "maxdepths": [None, None, 5, 8, 12],
+    "weights": {"eval": 9, "reeval": 2, "set": 0.5, "clearat": 0.6, "clear": 0.3, "clearall": 0.1,
+                "admin": 1.6, "maxdepth": 0.7},
+    "compare": ["values", "graph", "quiescent", "maxdepth"],
+    "maxdepths": [None, None, 5, 8, 12, 4, 6],
     "raise_p": 0.10, "none_p": 0.08, "catch_all_p": 0.0,
     "rule": "random programs with raise / None / wrong-arity / depth-limit failure points (kinds Value, Key, "
             "ZeroDiv, Type, KeyboardInterrupt, NoneReturned, Deep) at any depth, try/except of specific kinds; "
-            "histories of 8-16 queries and value edits; non-trivial = a failure of chain length >= 2 followed "
-            "by a successful evaluation",
+            "histories of 8-16 queries and value edits, interleaved with changes of the recursion limit "
+            "(mx.set_recursion, raised and lowered between evaluations) and administrative calls that must leave "
+            "evaluation alone (stack-trace sessions, get_recursion / get_error / get_traceback, setting the limit "
+            "to the value it has); scenario families: limit x chain just below / at / above it x administrative call "
+            "sequence; every assignment of allow_none to cells / space / model x a formula returning None; non-trivial = a failure of chain length >= 2 followed by a successful evaluation",
 }
 
 
@@ -48,17 +58,64 @@ def none_rule(case, impl, out, stats, hist):
                 return
 
 
-def oracle(case, recs, out, stats):
+def depth_rule(impl, limit, out, stats, hist, deep_chain):
+    """the configured limit is enforced, and only it: formulas never nest deeper than limit + 1 (CallStack.append
+    refuses a push when more than `limit` formulas are executing), and a DeepReferenceError arises exactly there"""
+    stats["oracle_depth_checks"] += 1
+    if impl.maxnest > limit + 1:
+        out.fail("formulas were nested %d deep although the recursion limit is configured to %d" % (
+            impl.maxnest, limit), hist)
+    if deep_chain is not None and deep_chain != limit + 1:
+        out.fail("DeepReferenceError with %d formulas executing although the recursion limit is configured to %d" % (
+            deep_chain, limit), hist)
+
+
+def without_admin(case, recs, out, stats):
+    """administrative calls are no-ops for evaluation: the same history without them gives the same results"""
+    idx = [k for k, op in enumerate(case["ops"]) if op[0] != "admin"]
+    if len(idx) == len(case["ops"]):
+        return
     impl = ExecImpl(case["cells"], case["refs"], case["n_rn"], case["maxdepth"], log=False)
+    try:
+        for k in idx:
+            r = impl.apply(case["ops"][k])
+            stats["oracle_admin_free_ops"] += 1
+            if k < len(recs) and r != recs[k]["impl"]:
+                out.fail("%s returns %s in the history with administrative calls (stack-trace sessions, read-backs) "
+                         "but %s without them" % (" ".join(case["ops"][k]), recs[k]["impl"], r),
+                         X.case_json(dict(case, ops=case["ops"][:k + 1])))
+                return
+        if idx and idx[-1] < len(recs):
+            a, b = impl.observe("values"), recs[-1]["obs"]["values"][0]
+            if a != b:
+                out.fail("held values differ from the history without administrative calls: %s vs %s" % (b, a),
+                         X.case_json(case))
+    finally:
+        impl.close()
+
+
+def oracle(case, recs, out, stats):
+    # log=True: the harness function every formula calls first measures how deep the formulas are nested
+    impl = ExecImpl(case["cells"], case["refs"], case["n_rn"], case["maxdepth"], log=True)
     nontrivial = False
     chain_failed = False
+    limit = case["maxdepth"] if case["maxdepth"] else 100000     # the limit as the history configured it
     try:
         ex = impl.ex
         for k, op in enumerate(case["ops"]):
             if op[0] != "eval":
                 impl.apply(op)
+                if op[0] == "maxdepth":
+                    limit = int(op[1])
+                if op[0] in ("maxdepth", "admin"):
+                    stats["oracle_limit_checks"] += 1
+                    if mx.get_recursion() != limit:
+                        out.fail("the recursion limit was configured to %d but get_recursion() reports %d after %s" % (
+                            limit, mx.get_recursion(), " ".join(op)), X.case_json(dict(case, ops=case["ops"][:k + 1])))
+                        limit = mx.get_recursion()      # report once, then follow the implementation
                 continue
             before = impl.observe("values").split()[1:]
+            impl.maxnest = 0
             c = impl.cells[int(op[1])]
             args = [None if a == "N" else int(a) for a in op[2:]]
             hist = X.case_json(dict(case, ops=case["ops"][:k + 1]))
@@ -68,6 +125,7 @@ def oracle(case, recs, out, stats):
                     if chain_failed:
                         nontrivial = True
                     none_rule(case, impl, out, stats, hist)
+                    depth_rule(impl, limit, out, stats, hist, None)
                     continue
                 except FormulaError:
                     orig = mx.get_error()
@@ -96,6 +154,7 @@ def oracle(case, recs, out, stats):
             chain = real_chain(orig)
             if len(chain) >= 2:
                 chain_failed = True
+            depth_rule(impl, limit, out, stats, hist, len(chain) if err_kind(orig) == "Deep" else None)
             after = impl.observe("values").split()[1:]
             held = {x.split("=")[0] for x in after}
             for cid, key, _ in chain:
@@ -107,6 +166,7 @@ def oracle(case, recs, out, stats):
                 out.fail("values held before the failed call are gone or changed: %s" % missing[:3], hist)
     finally:
         impl.close()
+    without_admin(case, recs, out, stats)
     # later evaluations as if the failure had not happened
     failing = {k for k, r in enumerate(recs) if r["op"][0] == "eval" and r["impl"].startswith("err Formula")}
     if failing and len(failing) < len(recs):
@@ -128,8 +188,63 @@ def oracle(case, recs, out, stats):
     return nontrivial
 
 
+def scenarios():
+    """limit L x a recursion of depth L-1 / L / L+1 / L+4 (the last two exceed it: chain(x) needs x+1 nested
+    formulas) x what happens between configuring the limit and the evaluation: nothing, each administrative call,
+    a whole stack-trace session, the evaluation INSIDE a session, the limit lowered / raised / set again."""
+    P0 = ("p", 0)
+    chain = ("if", ("lt", ("lit", 0), P0), ("add", ("call", 0, [("sub", P0, ("lit", 1))]), ("lit", 1)), ("lit", 0))
+    flavours = {"c": [True, True], "u": [False, True]}
+    between = {
+        "none": [],
+        "session": [["admin", "start"], ["admin", "stop"]],
+        "inside": [["admin", "start"]],
+        "inside-get-clear": [["admin", "start"], ["admin", "get"], ["admin", "clear"]],
+        "tracestack": [["admin", "tracestack"]],
+        "stop-only": [["admin", "stop"]],
+        "twice": [["admin", "start"], ["admin", "start"], ["admin", "stop"], ["admin", "stop"]],
+        "reads": [["admin", "getrecursion"], ["admin", "geterror"], ["admin", "gettraceback"]],
+        "setsame": [["admin", "setsame"]],
+        "get-refused": [["admin", "get"], ["admin", "clear"]],
+    }
+    out = []
+    for L in (4, 7):
+        for fl, (c0, c1) in flavours.items():
+            cells = [{"id": 0, "nparams": 1, "cached": c0, "allow_none": False, "body": chain},
+                     {"id": 1, "nparams": 1, "cached": c1, "allow_none": False,
+                      "body": ("add", ("call", 0, [P0]), ("lit", 100))}]
+            for name, mid in between.items():
+                ops = [["maxdepth", str(L)]] + [list(o) for o in mid]
+                for x in (L + 1, L - 1, L, L + 4):
+                    ops += [["eval", "0", str(x)], ["clear", "0"]]
+                # through a second cells (one more frame), after another administrative round, and after the limit moved
+                ops += [["eval", "1", str(L - 1)], ["admin", "stop"], ["eval", "0", str(L + 2)], ["eval", "0", str(L - 2)],
+                        ["maxdepth", str(L + 3)]] + [list(o) for o in mid] + [
+                        ["eval", "0", str(L + 2)], ["eval", "0", str(L + 3)], ["clearall", "0"],
+                        ["maxdepth", str(L - 2)], ["admin", "tracestack"], ["eval", "0", str(L - 2)],
+                        ["eval", "0", str(L - 3)], ["admin", "stop"]]
+                out.append({"cells": [dict(c) for c in cells], "refs": {0: 1, 1: 2, 2: 3, 3: 4}, "n_rn": 2,
+                            "maxdepth": None, "ops": ops, "label": "limit/L=%d %s %s" % (L, fl, name)})
+    # "returning None where it is not allowed": every assignment of allow_none to the three levels of the look-up
+    # (cells -> space -> model; None = not set at that level) x a formula returning None below a caller
+    for an_c in (None, True, False):
+        for an_s in (None, True, False):
+            for an_m in (False, True):
+                cells = [{"id": 0, "nparams": 1, "cached": True, "allow_none": an_c, "body": ("none",),
+                          "an_space": an_s, "an_model": an_m},
+                         {"id": 1, "nparams": 1, "cached": True, "allow_none": None,
+                          "body": ("if", ("call", 0, [P0]), ("lit", 1), ("lit", 2))},
+                         {"id": 2, "nparams": 1, "cached": True, "allow_none": an_c,
+                          "body": ("if", ("lt", ("lit", 0), P0), ("none",), ("call", 1, [P0]))}]
+                ops = [["eval", "1", "1"], ["eval", "0", "1"], ["set", "0", "2", "=", "N"], ["eval", "1", "2"],
+                       ["eval", "2", "0"], ["eval", "2", "3"], ["eval", "1", "1"]]
+                out.append({"cells": cells, "refs": {0: 1, 1: 2, 2: 3, 3: 4}, "n_rn": 2, "maxdepth": None,
+                            "ops": ops, "label": "allownone/cells=%s space=%s model=%s" % (an_c, an_s, an_m)})
+    return out
+
+
 def run(ctx, out):
-    X.run_family(ctx, out, CFG, oracle, 150, 2500)
+    X.run_family(ctx, out, CFG, oracle, 150, 2500, structured=scenarios())
     out.assumptions.append("'does not crash the interpreter' is a CPython C-stack fact: exercised (depth-limit cases), not proved")
 
 
